@@ -2,6 +2,7 @@ package props
 
 import (
 	"fmt"
+	"regexp"
 	"strconv"
 	"strings"
 
@@ -270,7 +271,7 @@ func c06Families(tier string) []explore.Family {
 		N = 6
 	}
 	K := len(c06Alpha)
-	return []explore.Family{c06SemFamily(tier), c06DeepFamily(), c06ClauseScaleFamily(), c06EnginesFamily(), {Name: fmt.Sprintf("token-sequences<=%d", N), Count: seqCount(K, N), Run: func(i int64, r *explore.Rec) {
+	return []explore.Family{c06SemFamily(tier), c06DeepFamily(), c06ClauseScaleFamily(), c06EnginesFamily(), c06SpellingFamily(tier), c06TwoOpaqueBlocksFamily(), {Name: fmt.Sprintf("token-sequences<=%d", N), Count: seqCount(K, N), Run: func(i int64, r *explore.Rec) {
 		seq := seqAt(K, i)
 		var sb strings.Builder
 		for k, si := range seq {
@@ -719,6 +720,149 @@ func c06EnginesFamily() explore.Family {
 	}}
 }
 
+// ---- sixth family: the verdict does not depend on how the tags are SPELLED. Every token sequence of <=3|4
+// symbols is re-spelled with each of seven whitespace/trim-marker conventions inside its tags (no padding, two
+// blanks, tabs, newline after the opening delimiter, newline before the closing delimiter, trim markers on both
+// sides, trim marker glued to the name) and must get the verdict the model gives the canonical spelling; an
+// accepted template must also render the same markers (whitespace aside, since trim markers eat it).
+var c06TagRe = regexp.MustCompile(`\{% ([^%]*?) %\}`)
+
+func c06Respell(src string, variant int) string {
+	return c06TagRe.ReplaceAllStringFunc(src, func(tag string) string {
+		inner := strings.TrimSuffix(strings.TrimPrefix(tag, "{% "), " %}")
+		switch variant {
+		case 0:
+			return "{%" + inner + "%}"
+		case 1:
+			return "{%  " + inner + "  %}"
+		case 2:
+			return "{%\t" + inner + "\t%}"
+		case 3:
+			return "{%\n" + inner + " %}"
+		case 4:
+			return "{% " + inner + "\n%}"
+		case 5:
+			return "{%- " + inner + " -%}"
+		}
+		return "{%-" + inner + "-%}"
+	})
+}
+
+func c06SpellingFamily(tier string) explore.Family {
+	N := 3
+	if tier == "thorough" {
+		N = 4
+	}
+	K := len(c06Alpha)
+	const variants = 7
+	return explore.Family{Name: fmt.Sprintf("tag-spellings-of-sequences<=%d", N), Count: seqCount(K, N) * variants, Run: func(i int64, r *explore.Rec) {
+		variant := int(i % variants)
+		seq := seqAt(K, i/variants)
+		var sb strings.Builder
+		for k, si := range seq {
+			if c06Alpha[si].name == "text" {
+				sb.WriteString("T" + strconv.Itoa(k) + ";")
+			} else {
+				sb.WriteString(c06Alpha[si].src)
+			}
+		}
+		canon := sb.String()
+		src := c06Respell(canon, variant)
+		if src == canon {
+			return
+		}
+		v := c06Model(seq)
+		r.Eval()
+		r.Transition()
+		r.Trace()
+		desc := map[string]any{"template": src, "canonical_spelling": canon}
+		var tpl *liquid.Template
+		var err liquid.SourceError
+		if p := explore.Safe(func() { tpl, err = c06.eng.ParseTemplate([]byte(src)) }); p != nil {
+			r.Violation(p.Key(), desc, "accept or reject", p.Value)
+			return
+		}
+		if (err == nil) != v.accept {
+			exp, obs := "rejected, like the canonical spelling", "accepted"
+			if v.accept {
+				exp, obs = "accepted, like the canonical spelling", "rejected: "+safeErr(err)
+			}
+			r.Violation("A1:accept-reject:tag-spelling", desc, exp, obs)
+			return
+		}
+		r.Class(fmt.Sprintf("spelling%d/%v", variant, v.accept))
+		if err != nil {
+			return
+		}
+		exp, ok := c06Render(v.root)
+		if !ok || strings.Contains(canon, "raw") {
+			return // raw bodies keep the tags' own whitespace; compared in C05
+		}
+		var out []byte
+		var rerr liquid.SourceError
+		if p := explore.Safe(func() { out, rerr = tpl.Render(map[string]any{}) }); p != nil {
+			r.Violation(p.Key(), desc, exp, p.Value)
+			return
+		}
+		strip := func(x string) string { return strings.Join(strings.Fields(c12TableTags.ReplaceAllString(x, "")), "") }
+		if rerr != nil || strip(string(out)) != strip(exp) {
+			r.Violation("A3:rendered-markers:tag-spelling", desc, strconv.Quote(exp), fmt.Sprintf("%q err=%v", out, rerr))
+		}
+	}}
+}
+
+// ---- seventh family: two raw/comment blocks whose tags are spelled INDEPENDENTLY (8 x 8 spellings of the two
+// end tags, 3 of the opening tags), with a structural token between them that is balanced, unbalanced or stray:
+// each block must end at its own end tag, so what stands between them is parsed as ordinary tags.
+func c06TwoOpaqueBlocksFamily() explore.Family {
+	spell := func(inner string, v int) string {
+		if v == 0 {
+			return "{% " + inner + " %}"
+		}
+		return c06Respell("{% "+inner+" %}", v-1)
+	}
+	type mid struct {
+		src    string
+		accept bool
+		out    string
+	}
+	mids := []mid{{"", true, ""}, {"{% if true %}", false, ""}, {"{% endif %}", false, ""}, {"{% if true %}X{% endif %}", true, "X"}, {"{% if false %}X{% endif %}Y", true, "Y"},
+		{"{% for i in (1..1) %}", false, ""}, {"{% endraw %}", false, ""}, {"{% endcomment %}", false, ""}, {"{% else %}", false, ""}, {"{{ 1 }}", true, "1"}}
+	kinds := []string{"raw", "comment"}
+	const nv = 8
+	return explore.Family{Name: "two-opaque-blocks-independent-spellings", Count: int64(len(mids) * nv * nv * 3 * 4), Run: func(i int64, r *explore.Rec) {
+		rx := radix{i}
+		k2, k1, ov, v2, v1, m := kinds[rx.next(2)], kinds[rx.next(2)], rx.next(3), rx.next(nv), rx.next(nv), mids[rx.next(len(mids))]
+		src := "<" + spell(k1, ov) + "a" + spell("end"+k1, v1) + m.src + spell(k2, (ov+1)%3) + "b" + spell("end"+k2, v2) + ">"
+		want := "<"
+		if k1 == "raw" {
+			want += "a"
+		}
+		want += m.out
+		if k2 == "raw" {
+			want += "b"
+		}
+		want += ">"
+		r.Eval()
+		r.Transition()
+		r.Trace()
+		o := Render(c06.eng, src, map[string]any{})
+		desc := map[string]any{"template": src}
+		r.Class(fmt.Sprintf("two-opaque/%v", m.accept))
+		strip := func(x string) string { return strings.Join(strings.Fields(x), "") }
+		switch {
+		case o.Panic != nil:
+			r.Violation("A1:two-opaque-blocks:panic", desc, "accept or reject", o.String())
+		case m.accept && o.Err != nil:
+			r.Violation("A1:accept-reject:two-opaque-blocks:well-nested-rejected", desc, "accepted", o.String())
+		case !m.accept && o.Err == nil:
+			r.Violation("A1:accept-reject:two-opaque-blocks:ill-nested-accepted", desc, "rejected: what stands between the two blocks is not properly nested", o.String())
+		case m.accept && strip(o.Out) != strip(want):
+			r.Violation("A3:rendered-markers:two-opaque-blocks", desc, strconv.Quote(want), o.String())
+		}
+	}}
+}
+
 func indexOf(xs []string, x string) int {
 	for i, y := range xs {
 		if x == y {
@@ -750,7 +894,7 @@ func init() {
 		ID:    "C06",
 		Level: "model_checking",
 		Rule: "all token sequences of length <=5 (quick) / <=6 (thorough) over the 22-symbol alphabet {text marker, object, plain tag, 8 block openers, else/elsif/when, 8 end tags}, every tag with valid arguments so only structure decides; " +
-			"model = pushdown acceptor with comment/raw modes and the clause table of the Liquid documentation; every sequence is parsed by the real ParseTemplate (no state merging); accepted templates are compared by tree shape (GetRoot) and by rendered markers; second family: every accepted sequence of <=6 (quick) / <=8 (thorough) symbols over an 18-symbol semantic alphabet in which conditions may be false (if false, unless true, empty for, when 2, elsif false), enumerated by a depth-first walk over model-viable prefixes, so that else/elsif/when bodies are the taken paths; third family: nesting depth 1..40 of each block kind and of the alternating pattern, with every single-position edit (end tag dropped, adjacent end tags swapped, end tag of another kind, stray elsif); fourth family: clauses at scale - 5 block shapes with all their clauses (if/elsif/else, unless/else, case/when/else, for/else) nested 1..40 deep with clauses on every level, and holding or following 1..40 closed sibling blocks, conditions all taken / none taken / alternating, compared by tree shape and rendered markers; fifth family: three engines with different registered blocks/tags parse the same sources in turn (definitions must not cross engines); " +
+			"model = pushdown acceptor with comment/raw modes and the clause table of the Liquid documentation; every sequence is parsed by the real ParseTemplate (no state merging); accepted templates are compared by tree shape (GetRoot) and by rendered markers; second family: every accepted sequence of <=6 (quick) / <=8 (thorough) symbols over an 18-symbol semantic alphabet in which conditions may be false (if false, unless true, empty for, when 2, elsif false), enumerated by a depth-first walk over model-viable prefixes, so that else/elsif/when bodies are the taken paths; third family: nesting depth 1..40 of each block kind and of the alternating pattern, with every single-position edit (end tag dropped, adjacent end tags swapped, end tag of another kind, stray elsif); fourth family: clauses at scale - 5 block shapes with all their clauses (if/elsif/else, unless/else, case/when/else, for/else) nested 1..40 deep with clauses on every level, and holding or following 1..40 closed sibling blocks, conditions all taken / none taken / alternating, compared by tree shape and rendered markers; seventh family: two raw/comment blocks with independently spelled tags around a balanced/unbalanced/stray token; sixth family: every sequence of <=3|4 tokens re-spelled with seven whitespace/trim-marker conventions inside its tags must get the canonical verdict and markers; fifth family: three engines with different registered blocks/tags parse the same sources in turn (definitions must not cross engines); " +
 			"state = PDA configuration (open-block stack, mode) after the sequence; transition/trace = one sequence",
 		Assumptions: []string{
 			"rendering is not compared when a clause follows an else or content stands between case and its first when (order semantics not stated); acceptance and tree shape still are",
